@@ -14,26 +14,38 @@ namespace Inspector
 /-- Defect switches of the hand-written runtime (same convention as `GenCfg`). -/
 structure LibCfg where
   /-- strings.go:74,83: `if len(p) > 0` — Set with the empty text is a no-op. -/
-  stringsSetEmptyNoop : Bool := true
+  stringsSetEmptyNoop : Bool := false   -- repaired in /repo (fix: commit), see known_findings.json
   /-- strings.go:181-222: every arm requires both lengths > 0 — two empty sequences are unequal. -/
-  stringsEmptyUnequal : Bool := true
+  stringsEmptyUnequal : Bool := false   -- repaired in /repo (fix: commit), see known_findings.json
   /-- strings.go:110-131: an index outside the range compares the empty string instead of leaving the result alone. -/
-  stringsCmpOutOfRange : Bool := true
+  stringsCmpOutOfRange : Bool := false   -- repaired in /repo (fix: commit), see known_findings.json
   /-- a typed-nil pointer argument is dereferenced by `sp` -/
   stringsNilPtrPanics : Bool := true
   /-- stranymap.go:216-221: Capacity with a non-empty path recurses into Length. -/
-  samapCapIsLen : Bool := true
+  samapCapIsLen : Bool := false   -- repaired in /repo (fix: commit), see known_findings.json
   /-- static.go:851-879: Reset of *string / *[]byte assigns to the local variable. -/
-  staticResetTextLost : Bool := true
+  staticResetTextLost : Bool := false   -- repaired in /repo (fix: commit), see known_findings.json
   /-- static.go:716-879: indInt/indUint truncate floats: DeepEqual(1, 1.5) but not DeepEqual(1.5, 1). -/
   staticDeqAsymmetric : Bool := true
   /-- static.go: indString ↔ indBytes recurse forever on a non-text operand. -/
-  staticDeqDiverges : Bool := true
+  staticDeqDiverges : Bool := false   -- repaired in /repo (fix: commit), see known_findings.json
   /-- static.go: typed-nil pointers are dereferenced. -/
   staticNilPtrPanics : Bool := true
 deriving Repr, Inhabited
 
 def LibCfg.repo : LibCfg := {}
+/-- The library as it was at the pinned commit (1c76ae3), before the `fix:` commits in /repo: every listed
+defect present. The `repo_not_correct*` theorems of the repaired classes are stated about it. -/
+def LibCfg.original : LibCfg where
+  stringsSetEmptyNoop := true
+  stringsEmptyUnequal := true
+  stringsCmpOutOfRange := true
+  stringsNilPtrPanics := true
+  samapCapIsLen := true
+  staticResetTextLost := true
+  staticDeqAsymmetric := true
+  staticDeqDiverges := true
+  staticNilPtrPanics := true
 def LibCfg.fixed : LibCfg where
   stringsSetEmptyNoop := false
   stringsEmptyUnequal := false
